@@ -30,15 +30,30 @@ ASSUMPTIONS = [
 NFEAT = 5
 
 
+_MIXED = [False]  # set per case: feature list whose features have DIFFERENT bounds (a spline grid laid over the bounds of
+                  # the wrong feature is invisible when every feature lives on (0, 1))
+
+
 def _fl():
     from ciderpress.dft import transform_data as T
 
+    if _MIXED[0]:
+        return T.FeatureList([T.UMap(1, 0.5), T.SignedUMap(2, 0.7), T.ZMap(3, 0.6, scale=2.0, center=0.5), T.UMap(4, 0.8),
+                              T.VMap(5, 0.5, scale=1.5, center=0.0)])  # bounds (0,1) (-1,1) (-0.5,1.5) (0,1) (0,1.5)
     return T.FeatureList([T.UMap(i + 1, 0.5 + 0.1 * i) for i in range(NFEAT)])  # all bounds (0, 1)
+
+
+def _to_bounds(U):
+    """Affine image of points of the unit box in the box of the feature bounds."""
+    if not _MIXED[0]:
+        return U
+    b = np.array(_fl().bounds_list, dtype=float)
+    return b[:, 0] + (b[:, 1] - b[:, 0]) * U
 
 
 def _ctrl(seed, n=9, salt=0):
     rng = np.random.RandomState(50 + 13 * seed + salt)
-    return 0.05 + 0.9 * rng.rand(n, NFEAT), rng.randn(n) * 0.4
+    return _to_bounds(0.05 + 0.9 * rng.rand(n, NFEAT)), rng.randn(n) * 0.4
 
 
 def _lattice(ndim_active=None):
@@ -47,7 +62,7 @@ def _lattice(ndim_active=None):
     pts = 0.02 + 0.96 * rng.rand(160, NFEAT)
     corners = np.array(list(itertools.product([0.0, 1.0], repeat=NFEAT)))[::3]
     edge = np.array([[a, b, 0.3, 0.7, c] for a in g for b in g for c in (0.0, 0.6)])
-    return np.vstack([pts, corners, edge])
+    return _to_bounds(np.vstack([pts, corners, edge]))
 
 
 LS = np.array([0.35, 0.6, 0.45, 0.8, 0.5])
@@ -72,10 +87,13 @@ def initial_cases(tier, seed):
         if name == "slice" and tier == "quick":
             continue
         cases.append({"kind": "spline-simple", "idx": name, "cs": 0})
+        cases.append({"kind": "spline-simple", "idx": name, "cs": 0, "bounds": "mixed"})
     for cls, order, prod in itertools.product(["ARBF", "AddRQ", "AddLLRBF"], [1, 2, 3], [False, True]):
         if order == 3 and tier == "quick" and cls != "ARBF":
             continue
         cases.append({"kind": "spline-additive", "cls": cls, "order": order, "prod": prod, "cs": 0})
+        if cls == "ARBF" and order <= 2:
+            cases.append({"kind": "spline-additive", "cls": cls, "order": order, "prod": prod, "cs": 0, "bounds": "mixed"})
         # index layouts: the order of the feature indexes of the two factors relative to each other and within the
         # additive factor (ascending, subset-RBF index after the additive ones, unsorted list)
         if order <= 2 and (cls == "ARBF" or tier == "thorough"):
@@ -279,7 +297,7 @@ def run_spline_simple(case):
     idx = _index(case["idx"])
     n = len(np.arange(NFEAT)[idx])
     kernel = K.DiffConstantKernel(1.4) * K.SubsetRBF(idx, length_scale=LS[:n] * 1.2)
-    ck = "kind=spline-simple;idx=%s" % case["idx"]
+    ck = "kind=spline-simple;idx=%s%s" % (case["idx"], ";bounds=mixed" if case.get("bounds") else "")
     fl = _fl()
     errs, gerrs, chk = _spline_errors(lambda dens: get_mapped_gp_evaluator_simple(kernel, Xc, alpha, fl, rbf_density=dens), kernel, Xc, alpha, ck, fails)
     return {"fail": fails, "evals": 4, "outcome": [ck, float("%.6e" % chk)], "info": {"errs": errs, "gerrs": gerrs}}
@@ -297,7 +315,7 @@ def run_spline_additive(case):
     kw = dict(order=order, scale=sc)
     if case["cls"] != "ARBF":
         kw["alpha"] = 1.6
-    ck = "kind=spline-additive;cls=%s;order=%d;prod=%s" % (case["cls"], order, case["prod"])
+    ck = "kind=spline-additive;cls=%s;order=%d;prod=%s%s" % (case["cls"], order, case["prod"], ";bounds=mixed" if case.get("bounds") else "")
     layout = case.get("layout")
     if layout:
         ck += ";layout=" + layout
@@ -344,5 +362,6 @@ def run_k0(case):
 
 def run_case(case):
     k = case["kind"]
+    _MIXED[0] = case.get("bounds") == "mixed"
     return {"rbf": run_rbf, "antisym": run_antisym, "spin": run_spin, "kerneleval": run_kerneleval, "linear": run_linear,
             "spline-simple": run_spline_simple, "spline-additive": run_spline_additive, "k0": run_k0}[k](case)
